@@ -277,10 +277,18 @@ type cellLogDB struct {
 func (l *cellLogDB) save(updates []pb.Update) error {
 	for _, ud := range updates {
 		if !pb.IsEmptySnapshot(ud.Snapshot) && ud.Snapshot.Index > l.ss.Index {
-			l.ss = ud.Snapshot
+			// a log store keeps the serialised record, not the caller's struct
+			var cp pb.Snapshot
+			pb.MustUnmarshal(&cp, pb.MustMarshal(&ud.Snapshot))
+			l.ss = cp
 		}
 	}
 	return nil
+}
+
+// recordText is the canonical text of what a snapshot record claims
+func recordText(ss pb.Snapshot) string {
+	return fmt.Sprintf("idx=%d term=%d od=%d dummy=%v mem=(%s)", ss.Index, ss.Term, ss.OnDiskIndex, ss.Dummy, showMembership(ss.Membership))
 }
 func (l *cellLogDB) Name() string                                { return "c08-cell" }
 func (l *cellLogDB) Close() error                                { return nil }
@@ -370,6 +378,9 @@ type replica struct {
 	disk    *diskState
 	lag     bool
 	dead    string // non-empty: the replica panicked
+	// the snapshot records this replica's saves returned (kept in memory by its
+	// LogReader): index -> canonical text at the time of the save
+	saved map[uint64]string
 	printed uint64 // results printed up to this index
 }
 
